@@ -310,8 +310,7 @@ impl<'a> DwarfUnwinder<'a> {
         )?;
 
         let mut bt = vec![FrameSpan::new(self.debugee, ecx.location())?];
-        let mut visited_ips = HashSet::new();
-        visited_ips.insert(frame_0_location.pc);
+        let mut visited_frames = HashSet::new();
         let Some(mut ucx) = mb_ucx else {
             return Ok(bt);
         };
@@ -326,7 +325,9 @@ impl<'a> DwarfUnwinder<'a> {
                 break;
             }
 
-            if !visited_ips.insert(return_addr) {
+            // A recursive function returns to the same address once per activation, each
+            // time with a higher CFA: only a repeated (return address, CFA) pair is a cycle.
+            if !visited_frames.insert((return_addr, ucx.cfa)) {
                 break;
             }
 
